@@ -180,31 +180,26 @@ class Outcome:
 
     def _classify(self, modname, trace_module, rejected):
         findings = load_findings(self.prop)
-        devs = sorted({f["deviation"] for f in findings if f.get("deviation")})
-        explained: dict[int, str] = {}
-        if devs:
-            traces = [t for t, _, _, _ in rejected]
-            v2, st, tr, _ = validate_parallel(trace_module, traces, deviations=devs, chunk=1500)
+        explained: dict[int, dict] = {}
+        # pass 2, one listed deviation model at a time: a rejected trace that the spec accepts once that
+        # named deviation is allowed is explained by that finding (and by nothing else)
+        for f in findings:
+            if not f.get("deviation"):
+                continue
+            traces = [t for t, _, _, _ in rejected if t["tid"] not in explained]
+            if not traces:
+                break
+            v2, st, tr, _ = validate_parallel(trace_module, traces, deviations=[f["deviation"]], chunk=1500)
             self.states += st
             self.transitions += tr
             for t in traces:
-                v, at, note = v2[t["tid"]]
-                if v == "ok":
-                    explained[t["tid"]] = note or "deviation"
+                if v2[t["tid"]][0] == "ok":
+                    explained[t["tid"]] = f
         mod = importlib.import_module(modname)
         matcher = getattr(mod, "match_finding", None)
         for t, v, at, job in rejected:
-            hit = None
-            if t["tid"] in explained:
-                # accepted once the listed deviation models are allowed: find which entry
-                if matcher:
-                    hit = matcher(findings, job, t, v, at)
-                if hit is None:
-                    cands = [f for f in findings if f.get("deviation")]
-                    hit = cands[0] if len(cands) == 1 else None
-                    if hit is None and cands:
-                        hit = {"id": "+".join(f["id"] for f in cands), "what": "explained by listed deviation models " + ",".join(devs)}
-            elif matcher:
+            hit = explained.get(t["tid"])
+            if hit is None and matcher:
                 hit = matcher([f for f in findings if not f.get("deviation")], job, t, v, at)
             if hit is not None:
                 h = self.known_hits.setdefault(hit["id"], {"id": hit["id"], "what": hit.get("what", ""), "count": 0, "example": _shrink_sample(job)})
